@@ -10,29 +10,62 @@ CHECK = {'pkgs': ['cmd', 'cluster'],
               'threshold-size subset of node directories; (b) generic JSON-tree walker over valid definition and lock files of every format '
               'version: every member/element/leaf x {changed value of the same type at 3 positions, other value, emptied, removed, array '
               'element duplicated/swapped, version relabelled to every other version, and for every hex/base64 byte-string leaf the four length changes drop-first-byte, drop-last-byte, prepend-zero-byte, append-zero-byte (the hashing pads some fields; fixtures carry fork versions with leading zeros (goerli) and trailing zeros (mainnet) and addresses with a zero byte at either end)} fed to the real decode + VerifyHashes + '
-              'VerifySignatures path; plus consistent re-hash/re-sign by the key holders after substituting shares or the group key',
- 'claim': 'quick: (a) 48 clusters = nodes 3..5 x threshold {default ceil(2n/3), n} x validators {1,2} x network {hoodi, mainnet} x deposit '
-          'amounts {default, 8+24 ETH}, insecure (cheap scrypt) keystores, per-validator distinct fee-recipient/withdrawal addresses; all '
+              'VerifySignatures path; plus consistent re-hash/re-sign by the key holders after substituting shares or the group key. '
+              'Dimension SIZES of (b): every field whose hashing depends on its length or element count is put at its boundary sizes in extra fixtures '
+              '(harness/cluster/zz_verif_c12sizes_test.go: k x 65 byte Safe/ERC-1271 signature lists with k in {1,2,3,32} for operator config_signature '
+              'and enr_signature at every operator position and creator config_signature lists of 1,2,3,32 (v1.11); deposit_amounts and the per-validator partial deposit lists '
+              'with 0,1,2,3,5,9 entries (>= v1.8); 1,2,3,5 validators / validator addresses; 3,4,5,10 operators / public shares / node signatures; '
+              'name of 0,1,11,32,33,256 characters; uuid / timestamp / dkg_algorithm / consensus_protocol at their limits 64/32/32/256 and empty '
+              'consensus_protocol); every sizes fixture goes through the round trip and the generic walker above, and a DENSE WALK alters every single '
+              'byte of every byte-string leaf (byte@i: lowest bit flipped) and every character of every text leaf (chr@i), and removes / duplicates / '
+              'exchanges every 65 byte element of every multi-signature list (el-drop@j, el-dup@j, el-swap@j), so that every element of a multi-element / '
+              'multi-chunk string is reached, not only first/middle/last. '
+              '(c) SEVERAL COPIES OF ONE ARTIFACT AS INPUT (harness/cmd/zz_verif_c12copies_test.go): on every created cluster the real combine.Combine '
+              '(verification enabled) gets the node directories with exactly ONE lock copy edited in raw JSON (stored hashes and signatures untouched), at '
+              'EVERY position of the directory list and, as a control, in all directories, for 9 edits (name, threshold, fee recipient, two public shares '
+              'swapped, validator public key, builder-registration gas limit, last validator removed, stored lock_hash, signature_aggregate); controls with '
+              'all copies re-indented / re-encoded identically; and one bad key share at every position (foreign key, copy of the next directory\'s '
+              'share, the node\'s share of the other validator)',
+ 'claim': 'quick: (a) 60 clusters = nodes 3..5 x validators {1,2} x network {hoodi, mainnet} x {threshold {default ceil(2n/3), n} x deposit '
+          'amounts {default, 8+24 ETH}, thresholds below the default {2 (n=4,5), default-1 (n=5)} with default deposits}, insecure (cheap scrypt) keystores, per-validator distinct fee-recipient/withdrawal addresses; all '
           'size-t subsets of node directories plus the full set through combine.Combine and through tbls.RecoverSecret; one --no-verify '
           'combine on a lock with exchanged group keys per cluster. (b) all 12 versions v1.0..v1.11 x {EIP-712 signed operators+creator, '
           'create-cluster style unsigned} x {lock, definition}, 2 validators 3-of-4 on goerli and on mainnet, every JSON node x every alteration kind '
-          '(~40k alterations), round trips, 384 re-signed inconsistent locks. '
-          'thorough: (a) 1472 clusters = nodes 3..10 x threshold {default, n, 2} x validators {1,2} x {hoodi, mainnet} x deposits {default, '
+          '(~39k alterations incl. the repository\'s example files), round trips, 768 re-signed inconsistent locks; sizes fixtures = 5 specs '
+          '(n0: 2 validators 3-of-4, empty name, no deposit_amounts and empty partial deposit lists, empty consensus_protocol; n1: 1 validator 7-of-10, 1 char name, 1 amount; n3: 3 validators 4-of-5, 32 char name, '
+          '3 amounts; n5: 5 validators 2-of-3, 33 char name, 5 amounts; max: 2 validators 3-of-4, 256 char name, all text fields at their limits, 9 amounts) x all 12 versions, signed, goerli, '
+          'plus 4 Safe fixtures (v1.11, 2 validators 3-of-4; operators rotating through 1,2,3,32 signatures so that every length occurs at every position, creator 2/32/3/1 signatures): generic walker on every sizes fixture (~70k alterations); '
+          'dense walk on every sizes fixture, the signed goerli fixture of every '
+          'version and the example files (~440k single-byte / single-character / list-element alterations; VerifySignatures only evaluated when VerifyHashes passed; '
+          'the two leaves no hash covers - signature_aggregate and node_signatures, whose every alteration costs a full VerifySignatures - are walked densely on the base fixtures, the example files and the Safe fixtures, on the other sizes fixtures in the thorough tier only). '
+          '(c) per cluster: (n+1) positions x 9 lock edits + 2 controls + n positions x 3 share edits (2 with one validator) on the full set of node directories (2772 altered-copy combines, 120 control combines, 620 bad-share combines). '
+          'thorough: (a) 1856 clusters = nodes 3..10 x threshold {default, n, 2 (n>=4), default-1 (n>=5)} x validators {1,2} x {hoodi, mainnet} x deposits {default, '
           '8+24, 31+1, 16+16} x compounding {no, yes} x split-existing-keys {no, yes}; subsets: all for n<=5, the n cyclic windows + full '
-          'set above. (b) additionally 1 validator 2-of-3, 2 validators 4-of-4 on hoodi (~66k alterations). '
+          'set above. (b) additionally 1 validator 2-of-3, 2 validators 4-of-4 on hoodi; sizes fixtures additionally n9 (9 validators, 17 amounts, 31 char name), n17 (17 validators, '
+          '255 char name), a256 (256 deposit amounts = the list limit); dense walk (all leaves) and re-sign scenarios on every fixture. (c) additionally on the first threshold-size subset of directories. '
           'Oracle: the statement - written artifacts verify/match/recombine; an altered file is rejected (decode, hashes or signatures) '
-          'unless it decodes to identical content or the field is in the not-covered table',
+          'unless it decodes to identical content or the field is in the not-covered table. Safe fixtures: contract signatures cannot pass '
+          'VerifySignatures offline, so VerifySignatures there runs with an execution-client stub that accepts EVERY contract signature - for the operator/creator '
+          'signature fields the oracle is therefore VerifyHashes only (they are hashed fields), all other checks of VerifySignatures stay in force; ordinary fixtures '
+          'keep the offline oracle (no execution client). (c) oracle: combine with one altered lock copy (or the same alteration in all copies) must return an error; with equal re-formatted copies it must '
+          'succeed and write the lock\'s keys; with a bad key share it must '
+          'return an error or write the private keys of the lock\'s validator public keys',
  'trusted': 'the per-version table of fields a format does not hash or sign (c12bNotCovered in harness/cluster/zz_verif_c12_test.go, one entry: '
             'emptying/removing signature_aggregate in v1.0/v1.1, justified by lock.go VerifySignatures + ssz.go hashLockLegacy); BLS/secp256k1 '
             'libraries, SSZ hash-tree-root of go-eth2-client types and the deposit/registration signing-domain helpers are used as given '
             '(harness verifies with the same helpers that creation signs with); key material is random per run (relations hold for any keys)',
- 'rule': 'one evaluation = one alteration of one file fed to the real loader, or one artifact class / combine subset of one created cluster; '
-         'distinct = distinct (version+variant, document, JSON path, alteration) resp. (configuration, check)',
- 'budget_s': {'quick': 100, 'thorough': 1500}}
+ 'rule': 'one evaluation = one alteration of one file fed to the real loader, or one artifact class / combine subset / altered-copy or bad-share combine of one created cluster; '
+         'distinct = distinct (version+variant[+sizes spec], document, JSON path, alteration incl. byte/character/element position) resp. (configuration, check | copies set, edit, position)',
+ 'budget_s': {'quick': 400, 'thorough': 1500}}
 CHECK["assumptions"] = ENUMX_ASSUME + [
     "alterations outside the alphabet are not covered: several simultaneous field changes (other than the re-sign scenarios), "
     "re-encodings of the same value (hex case, 0x1b/0x1c recovery ids, ECDSA s-malleability of node signatures, leading-zero padding), "
     "added unknown JSON members",
-    "ERC-1271 (smart-contract) operator signatures are not exercised: VerifySignatures runs without an execution client, as create cluster / "
-    "combine do offline",
+    "ERC-1271 (smart-contract) signatures are never verified against a contract: ordinary fixtures run VerifySignatures without an execution client, as "
+    "create cluster / combine do offline; the Safe fixtures use a stub on which every contract signature is valid (hash coverage of the signature lists is "
+    "what is checked there)",
+    "sizes: ENR length is the default of enr.New (no ip/tcp/udp entries, ~190 characters); list sizes between the listed boundary values are not covered; "
+    "the dense walk flips one bit of each byte / rotates each character (other values of the same position are not tried); quick tier: no dense walk of "
+    "signature_aggregate / node_signatures on the non-Safe sizes fixtures (three positions per leaf there)",
+    "(c): exactly one deviating copy per run (or all copies equal); --no-verify runs with deviating copies are not judged; the bad share is always validator 0's",
 ]
